@@ -15,6 +15,9 @@ pub enum Case {
     Literal(String, bool, usize),
     /// a tagged line, evaluated under every convention
     Line(Vec<T>),
+    /// ONE calculator whose separators are switched through the setters between evaluations:
+    /// sequence of convention indices; after every switch every literal is read again
+    Switched(Vec<usize>),
 }
 
 pub fn conventions() -> Vec<Conv> {
@@ -67,12 +70,76 @@ impl Prop for C08 {
                 Some(Case::Line(ts))
             },
         ));
+        let ds = tier.pick(3, 4);
+        f.push(Family::new(
+            "switched-conventions",
+            Mode::Full,
+            &format!("ONE calculator whose separators are switched with set_decimal_seperator / set_thousand_separator between evaluations: every sequence of 2..={} conventions; after every switch each of the 12 literals (plain and grouped) and three lines (a product, a currency conversion, a unit conversion through a variable) written in the current convention is evaluated: it denotes the intended number whatever was read before the switch", ds),
+            move |ch| {
+                let n = 2 + ch.choose(ds - 1);
+                let mut seq = Vec::new();
+                for _ in 0..n {
+                    seq.push(ch.choose(4));
+                }
+                Some(Case::Switched(seq))
+            },
+        ));
         f
     }
 
     fn exec(&self, ctx: &mut Ctx, case: &Case) -> Verdict {
         let convs = conventions();
         match case {
+            Case::Switched(seq) => {
+                let lits = ["0.5", "1.5", "0.25", "12.5", "0.001", "999.995", "1234.5", "1000", "1000000", "1234567.125", "-2.5", "-1234.5"];
+                let mut calc = ctx.fresh(&Cfg::default());
+                let mut v = Verdict { input: format!("switch {:?}", seq.iter().map(|k| format!("{}|{}", convs[*k].dec, convs[*k].thou)).collect::<Vec<_>>()), class: "literal-compared", compared: true, expected: "every literal denotes the intended number after every switch".into(), ..Default::default() };
+                let mut trace = String::new();
+                for (step, k) in seq.iter().enumerate() {
+                    let conv = &convs[*k];
+                    calc.set_decimal_seperator(conv.dec.clone());
+                    calc.set_thousand_separator(conv.thou.clone());
+                    for c in lits.iter() {
+                        for g in [false, true] {
+                            let text = lit::render(c, conv, g);
+                            let run = obs::eval(&calc, "en", &text);
+                            v.evals += 1;
+                            let want = Val::Number(lit::value(c), Base::Dec);
+                            let ok = matches!(run.single(), Some(Slot::Ok { val, .. }) if obs::val_close(val, &want, 0.0));
+                            if !ok {
+                                if let Run::Panic(p) = &run {
+                                    v.site = Some(p.site.clone());
+                                }
+                                v.expected = format!("{:?}", want);
+                                v.observed = format!("{}step {} [{}|{}] {} -> {}", trace, step, conv.dec, conv.thou, text, run.brief());
+                                v.violation = Some(format!("step {}: after switching the separators the literal {:?} does not denote the intended number", step, text));
+                                return v;
+                            }
+                        }
+                    }
+                    // lines whose value is known: 2,5 * 1.000 ; 1,5 kb through a variable
+                    let a = lit::render("2.5", conv, false);
+                    let b = lit::render("1000", conv, true);
+                    let c15 = lit::render("1.5", conv, false);
+                    for (text, want) in [(format!("{} * {}", a, b), Val::Number(2500.0, Base::Dec)), (format!("v = {} kb\nv to byte", c15), Val::Unit(1536.0, "memory".into(), 2))] {
+                        let run = obs::eval(&calc, "en", &text);
+                        v.evals += 1;
+                        let ok = match &run {
+                            Run::Done(o) => matches!(o.slots.last(), Some(Slot::Ok { val, .. }) if obs::val_close(val, &want, 1e-9)),
+                            _ => false,
+                        };
+                        if !ok {
+                            v.expected = format!("{:?}", want);
+                            v.observed = format!("{}step {} [{}|{}] {} -> {}", trace, step, conv.dec, conv.thou, text.replace('\n', " \\n "), run.brief());
+                            v.violation = Some(format!("step {}: after switching the separators the line {:?} has another value", step, text));
+                            return v;
+                        }
+                    }
+                    trace.push_str(&format!("[{}|{}] ok; ", conv.dec, conv.thou));
+                }
+                v.observed = trace;
+                v
+            }
             Case::Literal(c, g, k) => {
                 let conv = &convs[*k];
                 let text = lit::render(c, conv, *g);
